@@ -166,16 +166,15 @@ class Tables:
         self.by_id = {r['id']: r for r in inst}
         self.airports = ap
         self.flights = fl
-        self.min_day = min(r['day'] for r in inst)
-        self.max_day = max(r['day'] for r in inst)
+        # UTC day numbers of the departures (NOT the stored day column: for a generated database
+        # that column is an output of the code under test)
+        self.min_day = min(r['dep'] // 86400 for r in inst)
+        self.max_day = max(r['dep'] // 86400 for r in inst)
 
     def assumptions_violated(self):
         """Facts about the database the oracle relies on (they are about the importer, not about
         queries).  Returns a list of messages; empty when all hold."""
         out = []
-        bad = [r['id'] for r in self.inst if r['day'] != r['dep'] // 86400]
-        if bad:
-            out.append(f'{len(bad)} instances whose day column is not the UTC day of departure, e.g. id {bad[0]}')
         for aid, a in self.airports.items():
             rt = self.rtree.get(aid)
             if rt is None or max(abs(a['lat'] - rt[0]), abs(a['lat'] - rt[1]), abs(a['lon'] - rt[2]), abs(a['lon'] - rt[3])) > 1e-4:
